@@ -360,7 +360,7 @@ def run(ctx):
             ctx.pick(2000, 12000), label='parse')
     prog = st.fixed_dictionaries({'tape': oalsyn.tapes(600, 60), 'pop': c04_interpret.populations(), 'case': cases_, 'choices': choices_,
                                   'max_stmts': st.just(ctx.pick(12, 30)), 'max_depth': st.just(ctx.pick(3, 4))})
-    hyp_run(ctx, res, prog, wrap(interpret_case), ctx.pick(600, 2500), label='interpret')
+    hyp_run(ctx, res, prog, wrap(interpret_case), ctx.pick(450, 2500), label='interpret')
     if not ctx.quick:
         hyp_run(ctx, res, prog, wrap(interpret_case, flips=True), 150, label='interpret_flips')
     if ctx.shard == 0:
